@@ -75,15 +75,17 @@ func (tc *TypeConverter) AddImport(path, desiredName string) string {
 		return existingName
 	}
 
-	// Check if the desired name is already used by a different path
-	if existingPath, exists := tc.usedNames[desiredName]; exists && existingPath != path {
+	// Check if the desired name is already used by a different path, or by a package-level
+	// declaration of the package the file is written for
+	existingPath, exists := tc.usedNames[desiredName]
+	if (exists && existingPath != path) || tc.declaredInPackage(desiredName) {
 		// Name collision - generate a unique name
 		baseName := desiredName
 		counter := tc.nameCounters[baseName]
 		for {
 			counter++
 			newName := fmt.Sprintf("%s_%d", baseName, counter)
-			if _, used := tc.usedNames[newName]; !used {
+			if _, used := tc.usedNames[newName]; !used && !tc.declaredInPackage(newName) {
 				tc.nameCounters[baseName] = counter
 				tc.imports[path] = newName
 				tc.usedNames[newName] = path
@@ -105,6 +107,12 @@ func (tc *TypeConverter) Qualifier(path, desiredName string) *ast.Ident {
 	qualifier := ast.NewIdent(tc.AddImport(path, desiredName))
 	tc.qualifiers[qualifier] = struct{}{}
 	return qualifier
+}
+
+// declaredInPackage reports whether the current package declares name at package level: a
+// file of that package cannot import anything under that name.
+func (tc *TypeConverter) declaredInPackage(name string) bool {
+	return tc.currentPkg != nil && tc.currentPkg.Scope() != nil && tc.currentPkg.Scope().Lookup(name) != nil
 }
 
 // CollectExprImports walks an AST expression and collects package references.
